@@ -1138,6 +1138,7 @@ def make_machine(backend):
                 self.d.do(op)
             except Mismatch as e:
                 _ctx["failed"] = True
+                _ctx.setdefault("first", e.failure)
                 if e.failure.kind == "hang":
                     _ctx["timeout"] = 3.0        # while shrinking; the result is confirmed with the full bound
                 raise
@@ -1263,6 +1264,14 @@ def make_machine(backend):
     return HistMachine
 
 
+def _is_flaky(exc):
+    import hypothesis.errors as he
+
+    kinds = tuple(k for k in (getattr(he, n, None) for n in ("Flaky", "FlakyFailure", "FlakyStrategyDefinition",
+                                                             "FlakyReplay")) if isinstance(k, type))
+    return isinstance(exc, kinds)
+
+
 def worker_machine(arg):
     backend, seed, n_examples, steps, batches, scratch, open_ids = arg
     _setup(scratch)
@@ -1273,6 +1282,26 @@ def worker_machine(arg):
         _ctx.clear()
         _ctx.update(stats=stats, failed=False, exclude=set(open_ids), timeout=OP_TIMEOUT)
         exc = common.run_machine(make_machine(backend), seed * 31 + b, per, steps, shrink=True, shrink_seconds=20)
+        flaky = exc is not None and not isinstance(exc, Mismatch) and _is_flaky(exc) and _ctx.get("first")
+        if flaky:
+            # the same operation list behaved differently when Hypothesis re-ran it: xonsh itself is
+            # racing (never the case on a tree that keeps the flusher queue discipline).  The first
+            # disagreement was really observed; report it, reproduced if it can be.
+            f = _ctx["first"]
+            stats.notes.append("%s history fails schedule-dependently (Hypothesis reported %s)" % (
+                backend, type(exc).__name__))
+            g = None
+            for _ in range(3):
+                g, _d = check_history(f.case, open_ids)
+                if g is not None:
+                    break
+            if g is None:
+                f.detail += "  [observed once; did not reproduce in 3 replays: depends on thread timing]"
+                g = f
+            if g.bucket not in seen:
+                seen.add(g.bucket)
+                stats.fail(g)
+            continue
         f = common.machine_failure(exc, "C12 %s machine" % backend)
         if f is None:
             continue
